@@ -5,7 +5,7 @@
      c15r  <variant> <syms1> <syms2> <rands> <user> <pass> <nuser> <npass> <salt> <iter> <tls> <keys>
      auth14s <lad> <replies/replies/...> <mech> <mech args...> <scenario>   several exchanges on one Auth value
      auth  <lad 0|1> <replies> <mech> <mech args...>       (auth16: the same plus the records of a NOOP after Auth)
-     srv   <variant> <cbname> <cbdata> <snonce> <acct> <npass> <salt> <iter> <client-first> <client-final>
+     srv   <variant> <cbname> <cbdata> <snonce> <ext> <acct> <npass> <salt> <iter> <client-first> <client-final>
      hash  <sha1|sha256|md5> <msg>          hmac <sha1|sha256|md5> <key> <msg>
      pbkdf2 <sha1|sha256> <pass> <salt> <iter> <keylen>
      esc <name>     unesc <name>     atoi <text>     b64d <text>
@@ -124,10 +124,10 @@ let run (toks : string list) : string =
         base ^ " P:" ^ (if o.M.ro_closed then "-" else
                          hexlist_of (M.post_records o (bytes_of_string "NOOP") (M.Reply (n_of_int 250, bytes_of_string "ok"))))
       else base
-  | [("srv" | "srvstale"); variant; cbname; cbdata; snonce; acct; npass; salt; iter; cfirst; cfinal; _] ->
+  | [("srv" | "srvstale"); variant; cbname; cbdata; snonce; ext; acct; npass; salt; iter; cfirst; cfinal; _] ->
       (* the Gallina reference SCRAM server on the client messages of a real exchange *)
       let (v256, plus, _) = variant_of variant in
-      (match M.ref_server_run v256 plus (bytes_of_hex cbname) (bytes_of_hex cbdata) (bytes_of_hex snonce) (bytes_of_hex acct)
+      (match M.ref_server_run v256 plus (bytes_of_hex cbname) (bytes_of_hex cbdata) (bytes_of_hex snonce) (bytes_of_hex ext) (bytes_of_hex acct)
                (bytes_of_hex npass) (bytes_of_hex salt) (nat_of_int (int_of_string iter)) (bytes_of_hex cfirst) (bytes_of_hex cfinal) with
        | None -> "!"
        | Some (sf, None) -> hex_of_bytes sf ^ " !"
